@@ -520,8 +520,8 @@ class LogsourceConditionMatch(Contract):
     id = "C13.LogsourceCondition.match"
     target = f"{CR}:LogsourceCondition.match"
     props = ("C13",)
-    cases = ("rule", "corr0", "corr2", "corr_unresolved")
-    assumed = ["SigmaLogSource.__contains__ contract (C11)"]
+    cases = ("rule", "corr0", "corr2", "corr_unresolved", "corr_nested")
+    assumed = ["SigmaLogSource.__contains__ contract (C11)", "nesting of correlation rules unrolled to depth 2 (the recursion is structural)"]
 
     def setup(self, E):
         from .c11 import covers
@@ -536,11 +536,16 @@ class LogsourceConditionMatch(Contract):
             rules = [SObj(R, {"logsource": mk_logsource(I, "r")}, lazy=True)]
             arg = rules[0]
         else:
-            rules = [SObj(R, {"logsource": mk_logsource(I, f"r{i}")}, lazy=True) for i in range({"corr0": 0, "corr2": 2, "corr_unresolved": 1}[case])]
+            rules = [SObj(R, {"logsource": mk_logsource(I, f"r{i}")}, lazy=True) for i in range({"corr0": 0, "corr2": 2, "corr_unresolved": 1, "corr_nested": 2}[case])]
             refs = [SObj("Ref", {"rule": r} if case != "corr_unresolved" else {}) for r in rules]
             for x in refs:
                 x.ghost["closed"] = True
             arg = SObj(C, {"referenced_rules": refs}, lazy=True)
+            if case == "corr_nested":       # correlation -> [detection rule r0, correlation -> [detection rule r1]]
+                inner = SObj(C, {"referenced_rules": [refs[1]]}, lazy=True)
+                iref = SObj("Ref", {"rule": inner})
+                iref.ghost["closed"] = True
+                arg = SObj(C, {"referenced_rules": [refs[0], iref]}, lazy=True)
         return {"self": me, "args": [arg], "rules": rules, "case": case}
 
     def post(self, I, inp, r):
